@@ -816,7 +816,30 @@ def run_tables(ctx, spec):
                          'Universal', 'excursions', 'overlapping']})
 
 
+NIST_FUNCS = ['Frequency', 'BlockFrequency', 'Runs', 'LongestRuns',
+              'BinaryMatrixRank', 'Spectral', 'NonOverlappingTemplateMatching',
+              'OverlappingTemplateMatching', 'UniversalImpl',
+              'LinearComplexity', 'Serial', 'ApproximateEntropy', 'RandomWalk',
+              'CumulativeSumsPValue', 'RankDistribution',
+              'OverlappingTemplateMatchingDistribution',
+              'RandomExcursionsDistribution', 'ChiSquare']
+
+
 def run(ctx, spec):
+  from paranoid_crypto.lib.randomness_tests import nist_suite as ns
+  from vp import contracts
+  pm = contracts.PurityMonitor(ctx, keep=60)
+  if spec['shard'].startswith(('mid', 'thresholds', 'walk', 'meta')):
+    for f in NIST_FUNCS:
+      pm.wrap(ns, f)
+  try:
+    _run(ctx, spec)
+    pm.recheck()
+  finally:
+    pm.restore()
+
+
+def _run(ctx, spec):
   s = spec['shard']
   for prefix, fn in (('exh', run_exh), ('mid', run_mid),
                      ('thresholds', run_thresholds), ('big', run_big),
